@@ -221,20 +221,20 @@ theorem mulLoop_inf (b : Nat) : ∀ k, mulLoop b k .inf = .inf := by
   | zero => rfl
   | succ k ih => simp [mulLoop, F64.mulRadix, ih]
 
-theorem mulLoop_spec {b : Nat} (hb : 0 < b) : ∀ (k v : Nat),
+theorem mulLoop_spec {b : Nat} (hb : 0 < b) : ∀ (k v : Nat), v ≤ maxFinite →
     mulLoop b k (.fin v) = if v * b ^ k ≤ maxFinite then .fin (v * b ^ k) else .inf := by
   intro k
   induction k with
-  | zero => intro v; simp [mulLoop]
+  | zero => intro v hv; simp [mulLoop, hv]
   | succ k ih =>
-    intro v
+    intro v hv
     simp only [mulLoop, F64.mulRadix]
     have e : v * b ^ (k + 1) = v * b * b ^ k := by rw [Nat.pow_succ, Nat.mul_assoc, Nat.mul_comm b]
     by_cases h : v * b ≤ maxFinite
-    · rw [if_pos h, ih, e]
+    · rw [if_pos h, ih _ h, e]
     · rw [if_neg h, mulLoop_inf, if_neg]
       rw [e]
-      have : v * b * 1 ≤ v * b * b ^ k := Nat.mul_le_mul_left _ (Nat.pos_pow hb)
+      have : v * b * 1 ≤ v * b * b ^ k := Nat.mul_le_mul_left _ (Nat.pow_pos hb)
       omega
 
 /-! ### Leading zeros -/
@@ -244,7 +244,8 @@ theorem trimZeros_cons (c : Nat) (s : List Nat) :
   unfold trimZeros
   by_cases h : c = 48
   · subst h; simp [List.dropWhile]
-  · simp [List.dropWhile, h]
+  · have hb : (c == 48) = false := by simp [h]
+    simp [List.dropWhile, hb, h]
 
 theorem firstBad_trim (r : Radix) (s : List Nat) : firstBad r (trimZeros s) = firstBad r s := by
   induction s with
@@ -278,5 +279,184 @@ theorem trim_head (s : List Nat) : ∀ {c : Nat} {t : List Nat}, trimZeros s = c
     split at h
     · exact ih h
     · next hx => cases h; exact hx
+
+/-! ### Composition -/
+
+theorem digs_append (r : Radix) (xs ys : List Nat) : digs r (xs ++ ys) = digs r xs ++ digs r ys := by
+  simp [digs]
+
+theorem digs_length (r : Radix) (xs : List Nat) : (digs r xs).length = xs.length := by simp [digs]
+
+theorem firstBad_split {r : Radix} {xs ys : List Nat} (h : firstBad r (xs ++ ys) = none) :
+    firstBad r xs = none ∧ firstBad r ys = none := by
+  rw [firstBad_append] at h
+  cases hx : firstBad r xs with
+  | some c => rw [hx] at h; cases h
+  | none => rw [hx] at h; exact ⟨rfl, h⟩
+
+theorem sticky_iff (r : Radix) (cs : List Nat) :
+    ((false || (digs r cs).any (· != 0)) = true) ↔ valOf r.base (digs r cs) ≠ 0 := by
+  rw [Bool.false_or, List.any_eq_true, Ne, valOf_eq_zero (base_pos r)]
+  constructor
+  · rintro ⟨d, hd, hne⟩ hall
+    have := hall d hd
+    subst this
+    simp at hne
+  · intro h
+    apply Classical.byContradiction
+    intro hcon
+    apply h
+    intro d hd
+    apply Classical.byContradiction
+    intro hne
+    exact hcon ⟨d, hd, by simp [hne]⟩
+
+/-- bits-per-digit times (window − 1) -/
+theorem window_bits (r : Radix) : 2 ^ 123 ≤ r.base ^ (r.maxDigits - 1) := by
+  cases r
+  · show 2 ^ 123 ≤ 8 ^ 41
+    have : (8 : Nat) ^ 41 = 2 ^ 123 := by rw [show (8 : Nat) = 2 ^ 3 from rfl, ← Nat.pow_mul]
+    rw [this]; exact Nat.le_refl _
+  · show 2 ^ 123 ≤ 16 ^ 31
+    have : (16 : Nat) ^ 31 = 2 ^ 124 := by rw [show (16 : Nat) = 2 ^ 4 from rfl, ← Nat.pow_mul]
+    rw [this]; exact Nat.pow_le_pow_right (by omega) (by omega)
+
+theorem maxDigits_pos (r : Radix) : 0 < r.maxDigits := by cases r <;> decide
+
+/-- The window value is at least `2^123` when the window is full and starts with a non-zero digit. -/
+theorem window_lower {r : Radix} {t : List Nat} (hv : firstBad r t = none)
+    (hhead : ∀ {c : Nat} {t' : List Nat}, t = c :: t' → c ≠ 48) (hlen : r.maxDigits < t.length) :
+    2 ^ 123 ≤ valOf r.base (digs r (t.take r.maxDigits)) := by
+  cases t with
+  | nil => simp at hlen
+  | cons c t' =>
+    have hc : c ≠ 48 := hhead rfl
+    obtain ⟨m, hm⟩ : ∃ m, r.maxDigits = m + 1 := ⟨r.maxDigits - 1, by have := maxDigits_pos r; omega⟩
+    rw [hm, List.take_succ_cons]
+    simp only [firstBad] at hv
+    cases hd : toDigit r c with
+    | none => rw [hd] at hv; cases hv
+    | some d =>
+      have hd0 : d ≠ 0 := by
+        intro h0; subst h0; exact hc (toDigit_zero hd)
+      have e1 : digs r (c :: List.take m t') = d :: digs r (List.take m t') := by simp [digs, hd]
+      have e2 : valOf r.base (d :: digs r (List.take m t')) = accVal r.base d (digs r (List.take m t')) := by
+        simp [valOf, accVal]
+      rw [e1, e2, accVal_eq, digs_length]
+      have hl : (List.take m t').length = m := by
+        rw [List.length_take]
+        simp only [List.length_cons] at hlen
+        omega
+      rw [hl]
+      have hw := window_bits r
+      rw [hm, Nat.add_sub_cancel] at hw
+      have : 1 * r.base ^ m ≤ d * r.base ^ m := Nat.mul_le_mul_right _ (by omega)
+      omega
+
+/-- **Main lemma**: on a non-empty string of digits, `parse_num_radix` returns the
+    exact value rounded once to nearest-even, or `Overflow` when that is not finite. -/
+theorem parse_valid (r : Radix) (s : List Nat) (hs : s ≠ []) (hv : firstBad r s = none) :
+    parseNumRadix r s =
+      if roundNE (valOf r.base (digs r s)) ≤ maxFinite then .ok (roundNE (valOf r.base (digs r s)))
+      else .error .overflow := by
+  unfold parseNumRadix
+  have hne : s.isEmpty = false := by cases s <;> simp_all
+  rw [hne]
+  simp only [Bool.false_eq_true, if_false]
+  rw [← valOf_trim r s]
+  have hvt : firstBad r (trimZeros s) = none := by rw [firstBad_trim]; exact hv
+  have hhead := @trim_head s
+  generalize trimZeros s = t at *
+  have hsplit : t.take r.maxDigits ++ t.drop r.maxDigits = t := List.take_append_drop _ _
+  obtain ⟨hv1, hv2⟩ := firstBad_split (hsplit.symm ▸ hvt)
+  rw [windowLoop_spec r r.maxDigits t 0 0 (by simp) (by omega), hv1]
+  simp only
+  rw [tailLoop_spec, hv2]
+  simp only
+  -- names
+  have hW : accVal r.base 0 (digs r (t.take r.maxDigits)) = valOf r.base (digs r (t.take r.maxDigits)) := rfl
+  rw [hW]
+  generalize hWd : valOf r.base (digs r (t.take r.maxDigits)) = W
+  generalize hTd : valOf r.base (digs r (t.drop r.maxDigits)) = T
+  have hn : valOf r.base (digs r t) = W * r.base ^ (t.drop r.maxDigits).length + T := by
+    conv => lhs; rw [← hsplit]
+    rw [digs_append]
+    unfold valOf
+    rw [accVal_append, accVal_eq, digs_length]
+    have hW2 : accVal r.base 0 (digs r (List.take r.maxDigits t)) = W := hWd
+    rw [hW2, hTd]
+  have hWlt : W < U128 := by
+    rw [← hWd]
+    have := valOf_lt (digs_lt r (t.take r.maxDigits))
+    rw [digs_length] at this
+    have h2 : r.base ^ (t.take r.maxDigits).length ≤ r.base ^ r.maxDigits :=
+      Nat.pow_le_pow_right (base_pos r) (by rw [List.length_take]; omega)
+    exact Nat.lt_of_lt_of_le this (Nat.le_trans h2 (base_pow_max r))
+  have hTlt : T < r.base ^ (t.drop r.maxDigits).length := by
+    rw [← hTd]
+    have := valOf_lt (digs_lt r (t.drop r.maxDigits))
+    rwa [digs_length] at this
+  have hst : (false || (digs r (t.drop r.maxDigits)).any (· != 0)) = true ↔ T ≠ 0 := by
+    rw [← hTd]; exact sticky_iff r _
+  have hnum : (if (false || (digs r (t.drop r.maxDigits)).any (· != 0)) = true then W ||| 1 else W) =
+      (if T = 0 then W else W ||| 1) := by
+    by_cases hT0 : T = 0
+    · rw [if_pos hT0, if_neg (by rw [hst]; simp [hT0])]
+    · rw [if_neg hT0, if_pos (hst.mpr hT0)]
+  rw [hnum, hn]
+  -- W' is still a u128
+  have hU : U128 % 2 = 0 := by
+    rw [U128_eq, show (128 : Nat) = 127 + 1 from rfl, Nat.pow_succ, Nat.mul_mod_left]
+  have hW'lt : (if T = 0 then W else W ||| 1) < 2 ^ 128 := by
+    rw [← U128_eq]
+    split
+    · exact hWlt
+    · rw [or_one_eq]; split <;> omega
+  rw [Nat.zero_add]
+  generalize hk : (t.drop r.maxDigits).length = k at *
+  rw [mulLoop_spec (base_pos r) k _ (roundNE_u128 hW'lt)]
+  -- the sticky argument
+  have hround : roundNE (W * r.base ^ k + T) = roundNE (if T = 0 then W else W ||| 1) * r.base ^ k := by
+    cases k with
+    | zero =>
+      have : T = 0 := by simpa using hTlt
+      subst this
+      simp
+    | succ k' =>
+      have hlen : r.maxDigits < t.length := by
+        rw [List.length_drop] at hk; omega
+      have hWlow : 2 ^ 123 ≤ W := by rw [← hWd]; exact window_lower hvt (fun h => hhead h) hlen
+      have hW0 : W ≠ 0 := by have := two_pow_pos 123; omega
+      have e : r.base ^ (k' + 1) = 2 ^ (r.bits * (k' + 1)) := by rw [base_eq, ← Nat.pow_mul]
+      rw [e] at hTlt ⊢
+      have hlw : 54 ≤ W.log2 := (Nat.le_log2 hW0).mpr (Nat.le_trans (Nat.pow_le_pow_right (by omega) (by omega)) hWlow)
+      exact roundNE_sticky (Nat.log2_self_le hW0) Nat.lt_log2_self hlw hTlt
+  rw [hround]
+  by_cases hfin : roundNE (if T = 0 then W else W ||| 1) * r.base ^ k ≤ maxFinite
+  · rw [if_pos hfin, if_pos hfin]
+  · rw [if_neg hfin, if_neg hfin]
+
+theorem parse_invalid (r : Radix) (s : List Nat) {c : Nat} (hv : firstBad r s = some c) :
+    parseNumRadix r s = .error (.invalidDigit c) := by
+  unfold parseNumRadix
+  have hne : s.isEmpty = false := by cases s <;> simp_all [firstBad]
+  rw [hne]
+  simp only [Bool.false_eq_true, if_false]
+  have hvt : firstBad r (trimZeros s) = some c := by rw [firstBad_trim]; exact hv
+  generalize trimZeros s = t at *
+  have hsplit : t.take r.maxDigits ++ t.drop r.maxDigits = t := List.take_append_drop _ _
+  rw [← hsplit, firstBad_append] at hvt
+  rw [windowLoop_spec r r.maxDigits t 0 0 (by simp) (by omega)]
+  cases h1 : firstBad r (t.take r.maxDigits) with
+  | some c1 =>
+    rw [h1] at hvt
+    simp only [Option.orElse] at hvt
+    cases hvt
+    rfl
+  | none =>
+    rw [h1] at hvt
+    simp only [Option.orElse] at hvt
+    simp only
+    rw [tailLoop_spec, hvt]
 
 end Rsj.Codec
